@@ -33,6 +33,10 @@ pub struct NetCfg {
     pub bidi_credit: [Option<usize>; 2],
     /// cut candidates are taken at all offsets when at most this many bytes are available
     pub dense_cut_limit: usize,
+    /// a stream on which an endpoint has written more than this many bytes is a runaway writer (a subject that
+    /// keeps re-sending): further writes fail and the fact is logged as a misuse, so that the execution ends
+    /// instead of filling the memory. Far above anything a scenario writes legitimately.
+    pub max_stream_bytes: usize,
 }
 
 impl Default for NetCfg {
@@ -45,6 +49,7 @@ impl Default for NetCfg {
             uni_credit: [None, None],
             bidi_credit: [None, None],
             dense_cut_limit: 6,
+            max_stream_bytes: 8 << 20,
         }
     }
 }
